@@ -238,12 +238,28 @@ pub fn build(ctx: BuildContext<SimBp>) -> libcnb::Result<BuildResult, SimErr> {
         });
     }
     for sb in &b.build_sboms {
-        rb = rb.build_sbom(Sbom::from_bytes(sbom_format(sb.format), sb.data.clone()));
+        rb = rb.build_sbom(to_sbom(sb));
     }
     for sb in &b.launch_sboms {
-        rb = rb.launch_sbom(Sbom::from_bytes(sbom_format(sb.format), sb.data.clone()));
+        rb = rb.launch_sbom(to_sbom(sb));
     }
     rb.build()
+}
+
+/// SBOM data standing for "a CycloneDX document the author holds as a typed value" (parsed from
+/// a tool's output that carries no serial number), handed to libcnb through `Sbom::try_from`.
+pub const SBOM_TYPED_CYCLONEDX: &[u8] = b"\x01typed-cyclonedx";
+
+fn to_sbom(sb: &crate::e1::ops::SbomSpec) -> Sbom {
+    if sb.format == 0 && sb.data == SBOM_TYPED_CYCLONEDX {
+        let doc = br#"{"bomFormat":"CycloneDX","specVersion":"1.3","version":1,"components":[{"type":"library","name":"zlib","version":"1.3"},{"type":"library","name":"acme","version":"0.1.0"}]}"#;
+        if let Ok(bom) = cyclonedx_bom::models::bom::Bom::parse_from_json(&doc[..]) {
+            if let Ok(s) = Sbom::try_from(bom) {
+                return s;
+            }
+        }
+    }
+    Sbom::from_bytes(sbom_format(sb.format), sb.data.clone())
 }
 
 pub fn on_error(err: &libcnb::Error<SimErr>) {
